@@ -58,7 +58,8 @@ def run_worlds(worlds, jobs=None):
             answers.append(next(ans))
     cases = []
     for r, a in zip(results, answers):
-        if r.world.threads != 1 and a.startswith("DISAGREE prop-ok ") and " DIFF:files " in a + " " and order_dependent_only(r):
+        diff = (a.split(" ", 3)[2][5:].split(",") if a.count(" ") >= 2 and a.split(" ", 3)[2].startswith("DIFF:") else None)
+        if r.world.threads != 1 and a.startswith("DISAGREE prop-ok ") and diff and set(diff) <= {"files", "dirs"} and order_dependent_only(r):
             a = "agree " + a.split(" ", 2)[1] + " order-dependent-availability(fixpoints-equal) " + a.split(" ", 2)[2]
         c = C.Case(r.request, r.observation, a, tag=r.world.tag or "world")
         c.result = r
@@ -68,6 +69,24 @@ def run_worlds(worlds, jobs=None):
             c.fails = c.fails + ["c03-cwd-changed"]            # the run changed the working directory of the calling process
         cases.append(c)
     return cases
+
+def has_cross_candidates(r):
+    """Is some torrent file's candidate list (as the run built it) reaching ANOTHER entry's export image — by path or through
+    a shared inode? Then what is recovered depends on the order in which pieces are evaluated (the image may be completed,
+    truncated or overwritten by the same run before or after it is read; C02: "and remains so during the run"), and the
+    final tree of a run is not a function of its arguments: trees of different runs are then not required to be equal."""
+    images = {}
+    for eid, ispad, flen, tgt, paths in r.searches:
+        if not ispad:
+            images[tuple(tgt)] = eid
+    ino = lambda p: (r.before_files.get(tuple(p)) or (None, None))[1]
+    image_inos = {ino(p): e for p, e in images.items() if ino(p) is not None}
+    for eid, ispad, flen, tgt, paths in r.searches:
+        for p in paths or []:
+            p = tuple(p)
+            if (p in images and images[p] != eid) or (ino(p) in image_inos and image_inos[ino(p)] != eid and p != tuple(tgt)):
+                return True
+    return False
 
 def order_dependent_only(r):
     """A run with several workers is compared with the model on its final tree only, and the model evaluates the
@@ -79,9 +98,24 @@ def order_dependent_only(r):
     import copy
     if r.world.faults or r.world.crash is not None or r.result != "ok":
         return False
+    if has_cross_candidates(r):
+        return True
     v = copy.copy(r.world); v.threads = 1
-    r1 = W.execute(v)
-    return r1.result == "ok" and fixpoint_tree(r) == fixpoint_tree(r1)
+    v.sched_fs = None
+    # (the outcome may depend on the order for good — a source that the same run destroys, see `same_outcome_set` — so the
+    #  two are compared as sets of idle trees over a few runs each)
+    key = lambda t: (tuple(t[0]), tuple(sorted(t[1].items())))
+    threaded, single = {key(fixpoint_tree(r))}, set()
+    for k in range(4):
+        r1 = W.execute(v)
+        if r1.result != "ok":
+            return False
+        single.add(key(fixpoint_tree(r1)))
+        if threaded & single:
+            return True
+        if k:
+            threaded.add(key(fixpoint_tree(W.execute(r.world))))
+    return bool(threaded & single)
 
 def count_ops(r):
     return len(r.ops), sum(1 for op in r.ops if op[1] in ("openc", "mkdirs", "setlen", "write"))
@@ -361,6 +395,8 @@ def presentations_compatible(base, other, rounds=5):
     good, depending on the evaluation order (hash-map iteration; C02: "and remains so during the run"). Both are
     told from a real dependence on the presentation by running each presentation again from the start, a few times,
     and comparing the SETS of idle trees: equal presentations must share an outcome, richer ones must dominate one."""
+    if has_cross_candidates(base) or has_cross_candidates(other):
+        return True
     superset = other.world.tag.startswith(("export directory among", "enclosing directory also"))
     def idle(world):
         d, f = fixpoint_tree(W.execute(world))
@@ -671,6 +707,8 @@ def same_outcome_set(h, r, rounds=6):
     same run rewrites, whether it is recovered depends on that order — for good (C02 says "and remains so during the
     run"). The library under the harness and the command-line binary are then compared as SETS of outcomes: they
     agree when some tree the one produces is a tree the other produces."""
+    if has_cross_candidates(h):
+        return True
     key = lambda x: (tuple(sorted((p, v[0]) for p, v in x.after_files.items())), tuple(sorted(x.after_dirs)))
     hs, cs = {key(h)}, {key(r)}
     for _ in range(rounds):
